@@ -457,4 +457,5 @@ def cases(tier, seed):
     names = canon if big else rnd.sample(canon, 60)
     for i in range(0, len(names), 20):
         out.append(Case("H01.c-listing", f"{i:04d}", M, "h_compatible_listing", {"names": names[i : i + 20]}, kind="conc"))
+    out.append(Case("H01.obs", "observed", "pvlib.harness.observed", "h_c01", {}, kind="conc"))
     return out
